@@ -69,7 +69,7 @@ class C20(Prop):
             "file and dict routes must give the same configuration. Non-trivial = >=2 options or >=2 steps; distinct by input hash.")
 
     def corpus(self):
-        return [dict(c) for c in CLAUSES] + ctor_pair("mynodes", "mycls", True, "file") + ctor_pair("123", "true", False, "file") + super().corpus()
+        return [dict(c) for c in CLAUSES] + ctor_pair("mynodes", "mycls", True, "file") + ctor_pair("cls-nodes", "cls", False, "file") + ctor_pair("inv", "inv.classes", True, "opts") + ctor_pair("a/b", "a/bc", False, "file") + ctor_pair("a/b", "a/b/c", False, "file") + ctor_pair("123", "true", False, "file") + super().corpus()
 
     def cases(self, tier, seed):
         N = 400 if tier == "quick" else 10000
@@ -107,7 +107,8 @@ class C20(Prop):
             c = C(route, opts, steps)
             yield c
             if i % 4 == 0:
-                yield from ctor_pair(r.choice(["n1", "mynodes", "sub/n", "x_y"]), r.choice(["c1", "mycls", "sub/c"]), r.chance(1, 2), r.choice(["file", "opts"]))
+                yield from ctor_pair(r.choice(["n1", "mynodes", "sub/n", "x_y", "cls-nodes", "c1x", "mycls.d", "sub/c-n"]),
+                                     r.choice(["c1", "mycls", "sub/c", "cls"]), r.chance(1, 2), r.choice(["file", "opts"]))
             if not steps or i % 2 == 0:
                 t = C("opts" if route == "file" else "file", opts, [])
                 t["twin_of"] = core.case_hash(C(route, opts, []))
@@ -185,6 +186,14 @@ class C20(Prop):
         return t
 
     def matches_known(self, finding, req, impl, reply):
+        if finding.get("id") == "D16":
+            # the constructor rejects overlapping nodes/classes directories, the option routes accept them
+            o = {x[0]: x[1] for x in req.get("options", []) if isinstance(x[1], str)}
+            n, c = o.get("nodes_uri"), o.get("classes_uri")
+            if req.get("twin_of") and n and c:
+                a, b = n.split("/"), c.split("/")
+                return a[:len(b)] == b or b[:len(a)] == a
+            return False
         if finding.get("id") != "D15":
             return False
         # a path option whose YAML form needs quotes
